@@ -761,6 +761,7 @@ func (f *frame) applyContract(at ssa.Instruction, ct *Contract, args []T, st *St
 				t.Go = ct.ParamTypes[i]
 			}
 			env.vars[n] = t
+			env.vars["v_"+n] = t // alias for names that clash with spec keywords (result, old, ...)
 		}
 	}
 	short := ct.Rel
@@ -980,7 +981,7 @@ func (f *frame) havocPattern(st *State, pat string, ct *Contract, env *specEnv) 
 		f.bumpW(st)
 		return
 	}
-	if i := strings.Index(pat, "."); i > 0 && ct.Pkg != nil {
+	if i := strings.Index(pat, "."); i > 0 && ct.Pkg != nil && !strings.Contains(pat, "(") && !strings.HasPrefix(pat, "heap:") {
 		tn, fld := pat[:i], pat[i+1:]
 		at := ""
 		if j := strings.Index(fld, "@"); j > 0 {
@@ -1307,21 +1308,30 @@ func (f *frame) parallelize(at ssa.Instruction, c *ssa.CallCommon, args []T, st 
 	for _, b := range fn.Blocks {
 		for _, ins := range b.Instrs {
 			if r, ok := ins.(*ssa.Return); ok && len(r.Results) == 1 {
-				mi, ok := r.Results[0].(*ssa.MakeInterface)
-				if !ok || (dyn != nil && !types.Identical(dyn, mi.X.Type())) {
+				var t types.Type
+				switch x := r.Results[0].(type) {
+				case *ssa.MakeInterface:
+					t = x.X.Type()
+				case *ssa.ChangeInterface:
+					// a value of interface type I converted to interface{}: nil, or a dynamic type implementing I
+					t = x.X.Type()
+				}
+				if t == nil || (dyn != nil && !types.Identical(dyn, t)) {
 					uniform = false
 					continue
 				}
-				dyn = mi.X.Type()
+				dyn = t
 			}
 		}
 	}
 	if uniform && dyn != nil {
 		h, hs := f.elemHeap(rt.Underlying().(*types.Slice).Elem())
-		pos := e.fresh("pos", "Int")
-		_ = pos
-		e.assume(implies(st.cond, "(forall ((ppos Int)) (=> (and (<= (soff "+res.S+") ppos) (< ppos (+ (soff "+res.S+") (slen "+res.S+")))) "+
-			f.hasType("(select (select "+e.H(st, h, hs)+" (sarr "+res.S+")) ppos)", dyn)+"))"))
+		el := "(select (select " + e.H(st, h, hs) + " (sarr " + res.S + ")) ppos)"
+		fact := f.hasType(el, dyn)
+		if _, isI := dyn.Underlying().(*types.Interface); isI {
+			fact = "(or (= (ityp " + el + ") 0) " + fact + ")"
+		}
+		e.assume(implies(st.cond, "(forall ((ppos Int)) (=> (and (<= (soff "+res.S+") ppos) (< ppos (+ (soff "+res.S+") (slen "+res.S+")))) "+fact+"))"))
 	}
 	return []T{res}, true
 }
